@@ -166,7 +166,7 @@ def _pool():
     return ProcessPoolExecutor(max_workers=int(os.environ.get('PYVC_JOBS', '14')), mp_context=mp.get_context('fork'))
 
 def solver_selftest():
-    """the two recorded inputs on which z3 wrongly answers unsat must not be refuted once they have passed the guard of solve.py"""
+    """the two recorded inputs on which z3 wrongly answers unsat must not be refuted once they have been translated by pyvc/unnest.py"""
     import z3
     d = os.path.join(os.path.dirname(os.path.abspath(__file__)), 'selftest', 'solver')
     out = []
@@ -270,7 +270,7 @@ def main(argv=None):
         try:
             res.solver_selftest = solver_selftest()
             for r_ in res.solver_selftest:
-                if r_['z3_after_guard'] == 'unsat': res.errors.append('solver self-test: %s is refuted even after the nested-nth guard (a satisfiable input)' % r_['input'])
+                if r_['z3_after_guard'] == 'unsat': res.errors.append('solver self-test: %s is refuted even after the translation of pyvc/unnest.py (a satisfiable input)' % r_['input'])
         except Exception as e:
             res.errors.append('solver self-test crashed: %s' % e)
     t_o = time.time()
@@ -351,7 +351,7 @@ def write_evidence(prop, mod, res, tier, seed, wall):
             discharged=sum(1 for o in obls if o.result == 'proved'),
             checker_cmd='python3-vt bin/check %s --tier %s' % (prop, tier),
             trusted_base=['z3 %s (python API)' % solve.z3.get_version_string(), 'cvc5 1.0.3 (CLI, fallback / second opinion)',
-                          'pyvc: own AST->SMT generator in /verif/pyvc (unverified)', 'solver soundness: an unsat answer of z3 / cvc5 is believed; z3 is known to answer unsat wrongly on nth over empty sequences of strings (pyvc/selftest/solver/), every query is rewritten to avoid that construct (solve.guard_nested_nth)', 'sidecar contracts in /verif/contracts (specification)'] + list(getattr(mod, 'TRUSTED', [])),
+                          'pyvc: own AST->SMT generator in /verif/pyvc (unverified)', 'solver soundness: an unsat answer of z3 / cvc5 is believed; z3 is known to answer unsat wrongly on inputs with sequences of sequences, e.g. lists of str (pyvc/selftest/solver/): every query is translated into an isomorphic one without nested sequence sorts before it reaches a solver (pyvc/unnest.py)', 'sidecar contracts in /verif/contracts (specification)'] + list(getattr(mod, 'TRUSTED', [])),
             samples=[o.summary() for o in res.obls[:12]],
             all_obligations=[dict(name=o.name, result=o.result, backend=o.backend, s=round(o.solver_s, 3)) for o in res.obls],
             backends=by_backend,
